@@ -57,8 +57,8 @@ overload taking a ProgressBar is not instantiated by the drivers and therefore n
 follows the callback" is implemented in the weaker inter-procedural form stated under H1 because a flush inside
 handle_complete_relation is redundant with the one every second-pass handler performs after add().
 """
-from ..c11_util import (calls, can_follow, counts_from_zero_by_one, every_path_passes, exactly_once, guard_conds, in_loop, live,
-                        nonzero_guarded, param_root, range_loops, subtree_calls, var_edge_filter, zero_test)
+from ..c11_util import (call_edge_filter, calls, can_follow, counts_from_zero_by_one, every_path_passes, exactly_once, guard_conds, in_loop, live,
+                        nonzero_guarded, origin, param_root, range_loops, subtree_calls, var_edge_filter, zero_test)
 from ..flow import describe_path
 from .. import sorted as S
 
@@ -123,28 +123,49 @@ def build_model(fb, R):
     M.find_usrs = {s.fn.usr for s in M.proto.searches}
     M.track_fns = sorted({id(m[0]): m[0] for m in M.proto.mutators}.values(), key=lambda f: f.line)
     # release routine of the members database: calls ItemStash::remove_item on a member
-    M.remove_fns = [f for f in fb.functions if f.cls == MDC and f.has_cfg and calls(f, STASH + '::remove_item')]
-    M.add_fns = [f for f in fb.functions if f.cls == MD and f.has_cfg and calls(f, RH + '::decrement_members')]
+    # release routine of the members database: releases a stash item or sets the removed mark of an element
+    M.mark = _mark_model(fb, M)
+    M.remove_fns = [f for f in fb.functions if f.cls == MDC and f.has_cfg and not f.is_lambda and
+                    (calls(f, STASH + '::remove_item') or (M.mark is not None and calls(f, M.mark[0])))]
+    # add(): the method of the derived database that decrements the member counter, invokes a functor parameter, or
+    # stores an object in the stash (any one of the three roles identifies it, so a deleted one is a violated instance)
+    def _add_role(f):
+        if calls(f, RH + '::decrement_members'):
+            return True
+        roots = [('var', p['d'], p['name']) for p in f.params[1:]]
+        if [n for n in f.all_nodes() if n.get('k') == 'call' and n.get('op') == '()' and n.get('recv') is not None and f.root_var(n['recv']) in roots]:
+            return True
+        for n in f.all_nodes():
+            if n.get('k') == 'call' and n.get('u') and n.get('recv') is not None and (f.sn(n['recv']) or {}).get('k') == 'this':
+                if any(calls(g, STASH + '::add_item') for g in fb.by_usr.get(n['u'], [])):
+                    return True
+        return False
+    M.add_fns = [f for f in fb.functions if f.cls == MD and f.has_cfg and not f.is_lambda and _add_role(f)]
     M.search_key = None
     return M
 
 
 # ================================================================================================ SORTED (clause 3)
 
-def sorted_rules(fb, R, M):
-    proto = M.proto
-    cq = '%s::%s' % (MDC, M.cont)
+def container_rules(fb, R, cls_q, cont, proto=None):
+    """S1-S4 for one member container (generic: also used by the positive self-test).  Returns the search key."""
+    proto = proto or S.container_protocol(fb, cls_q, cont)
+    cq = '%s::%s' % (cls_q, cont)
+    search_key = None
+    if not proto.searches:
+        R.broken('%s: no binary search found' % cq)
+        return None
     whole = [s for s in proto.sorts if not s.partial]
     R.check(bool(whole), 'S2-searched-container-is-sorted', cq + '#sorted-by-a-prepare-step',
             proto.searches[0].loc, '%s is binary-searched (%s) but no method sorts the whole vector' % (
-                M.cont, ', '.join(sorted({s.fn.q for s in proto.searches}))))
+                cont, ', '.join(sorted({s.fn.q for s in proto.searches}))))
     sort_keys = []
     for so in whole:
         try:
             sort_keys.append((so, S.site_key(fb, so)))
         except S.UnknownShape as e:
             R.broken('sort key of %s at %s: %s' % (cq, so.loc, e))
-            return
+            return None
     for se in proto.searches:
         key = '%s#%s%s' % (se.fn.q, se.label(), '#const' if se.fn.const else '')
         try:
@@ -152,7 +173,7 @@ def sorted_rules(fb, R, M):
         except S.UnknownShape as e:
             R.broken('search key of %s at %s: %s' % (cq, se.loc, e))
             continue
-        M.search_key = sk
+        search_key = sk
         if not sort_keys:
             R.bad('S1-search-key-prefix-of-sort-key', key, se.loc, 'searched by %s but the vector is never sorted' % sk.text())
             continue
@@ -162,19 +183,26 @@ def sorted_rules(fb, R, M):
                     '%s in %s: %s' % (se.label(), se.fn.q, why), 'search key %s, sort key %s' % (sk.text(), k.text()))
     # S3 phase partition
     conflicts = {q: txt for (q, _f, txt) in proto.phase_conflicts()}
-    for q, fns in sorted(M.searchers.items()):
+    for q, fns in sorted(proto.reaching('search').items()):
         R.check(q not in conflicts, 'S3-phase-partition', q + '#lookup-phase-only', fns[0].site, conflicts.get(q, ''))
-    for q, fns in sorted(M.inserters.items()):
+    for q, fns in sorted(proto.reaching('mutate').items()):
         R.check(q not in conflicts, 'S3-phase-partition', q + '#insert-phase-only', fns[0].site, conflicts.get(q, ''))
     # S4 key fields immutable
-    if M.search_key is not None:
-        fields = sorted(set(M.search_key.fields()))
+    if search_key is not None:
+        fields = sorted(set(search_key.fields()))
         writes = S.key_field_writes(fb, fields)
         for fq in fields:
             w = [(f, n) for (f, n) in writes if (f.sn(n.get('lhs', n.get('sub', n.get('recv')))) or {}).get('q') == fq]
             R.check(not w, 'S4-search-key-immutable', fq + '#never-written-after-construction',
                     w[0][0].loc(w[0][1]['id']) if w else cq,
                     'search-key field %s is written in %s: a sorted vector is no longer ordered by it' % (fq, w[0][0].q if w else ''))
+    return search_key
+
+
+def sorted_rules(fb, R, M):
+    proto = M.proto
+    cq = '%s::%s' % (MDC, M.cont)
+    M.search_key = container_rules(fb, R, MDC, M.cont, proto)
     # S5 the manager's prepare step covers every members database
     mrec = fb.record(RMB)
     if mrec is None:
@@ -323,8 +351,8 @@ def track_rules(fb, R, M):
                 continue
             src = S.ctor_field_sources(fb, ctor)
             field_of_arg = {s[1]: fq for fq, s in src.items() if s[0] == 'param'}
-            pos_arg = [j for j, a in enumerate(args) if (fn.sn(a) or {}).get('q') == RH + '::pos'
-                       and fn.root_var((fn.sn(a) or {}).get('recv')) in [param_root(fn, i) for i in hparams]]
+            pos_arg = [j for j, a in enumerate(args) if (origin(fn, a) or {}).get('q') == RH + '::pos'
+                       and fn.root_var((origin(fn, a) or {}).get('recv')) in [param_root(fn, i) for i in hparams]]
             fpos = field_of_arg.get(pos_arg[0]) if len(pos_arg) == 1 else None
             used = sorted(relpos)
             R.check(fpos is not None and used == [fpos], 'T2-element-field-roles', fn.q + '#handle-position-stored-in-the-field-used-for-relation-lookup',
@@ -358,7 +386,8 @@ def track_rules(fb, R, M):
         ok = False
         msg = 'search value is not a freshly constructed element'
         if len(args) >= 3:
-            cons = [fn.nodes[x] for x in fn.subtree(args[2]) if fn.nodes[x].get('k') == 'construct' and fn.nodes[x].get('q') == M.elem + '::(ctor)'
+            vroot = origin(fn, args[2])
+            cons = [fn.nodes[x] for x in fn.subtree(vroot['id'] if vroot is not None else args[2]) if fn.nodes[x].get('k') == 'construct' and fn.nodes[x].get('q') == M.elem + '::(ctor)'
                     and not fn.nodes[x].get('copymove') and not fn.nodes[x].get('elidable')]
             if cons:
                 cargs = [a for a in cons[0].get('args', []) if a is not None]
@@ -451,11 +480,7 @@ def add_rules(fb, R, M):
             if ok:
                 hid = {n['id'] for n in has}
 
-                def edge_ok(b, idx, s, fn=fn, hid=hid):
-                    blk = fn.blocks[b]
-                    if 'cond' in blk and len(blk['succs']) == 2 and fn.strip(blk['cond']) in hid:
-                        return idx == 0
-                    return True
+                edge_ok = call_edge_filter(fn, lambda c, hid=hid: c.get('id') in hid, True)
                 for hn in has:
                     w = every_path_passes(fn, [c['id'] for c in fcalls], start=hn['id'], until=[L.inc], edge_ok=edge_ok)
                     if w is not None:
@@ -588,7 +613,7 @@ def remove_rules(fb, R, M):
     if not M.remove_fns:
         R.broken('%s: no method that releases a member from the stash (remove) found' % MDC)
         return
-    mm = _mark_model(fb, M)
+    mm = M.mark
     if mm is None:
         R.broken('%s: cannot identify the removed mark (a method assigning a sentinel and a predicate comparing the same field)' % M.elem)
         return
@@ -818,7 +843,7 @@ def second_pass_rules(fb, R, M):
                     ok, msg = False, 'member release outside the member loop'
                     continue
                 args = n.get('args', [])
-                rc = fn.sn(n['recv'])
+                rc = origin(fn, n['recv'])
                 sel = rc is not None and rc.get('q') == RMB + '::member_database' and \
                     any((fn.sn(a) or {}).get('q') == MEMBER + '::type' and fn.root_var(a) == lroot for a in rc.get('args', []) if a is not None)
                 if not sel:
@@ -917,7 +942,7 @@ def first_pass_rules(fb, R, M):
                 ok, msg = False, 'per member, track() / set_ref(0): %s' % why
         for c in tracks:
             args = c.get('args', [])
-            rc = fn.sn(c['recv'])
+            rc = origin(fn, c['recv'])
             sel = rc is not None and rc.get('q') == RMB + '::member_database' and \
                 any((fn.sn(a) or {}).get('q') == MEMBER + '::type' and fn.root_var(a) == lroot for a in rc.get('args', []) if a is not None)
             refs = [a for a in args if a is not None and (fn.sn(a) or {}).get('q') == MEMBER + '::ref' and fn.root_var(a) == lroot]
@@ -932,7 +957,8 @@ def first_pass_rules(fb, R, M):
                 for (n, s) in guard_conds(fn, c['id']):
                     if not in_loop(fn, L, n['id']):
                         continue
-                    sub = [fn.nodes[x] for x in fn.subtree(n['id'])]
+                    src = origin(fn, n['id']) or n
+                    sub = [fn.nodes[x] for x in fn.subtree(src['id'])]
                     if any(x.get('q', '').endswith('::wanted_type') for x in sub) and any(x.get('q', '').endswith('::new_member') for x in sub):
                         out.append((n['id'], s))
                 return out
@@ -1267,3 +1293,16 @@ def run(ctx):
     R.expect('D1-member-database-dispatch', 6)
     R.expect('I1-released-relation-not-listed', 4)
     R.expect('C1-member-counter-ops', 6)
+
+
+def _selftest_container(fb, R):
+    container_rules(fb, R, 'c11pos::Index', 'm_entries')
+    container_rules(fb, R, 'c11pos::Unsorted', 'm_entries')
+
+
+SELFTESTS = [
+    ('S1-search-key-prefix-of-sort-key', 'c11_sorted.cpp', _selftest_container),
+    ('S2-searched-container-is-sorted', 'c11_sorted.cpp', _selftest_container),
+    ('S3-phase-partition', 'c11_sorted.cpp', _selftest_container),
+    ('S4-search-key-immutable', 'c11_sorted.cpp', _selftest_container),
+]
